@@ -871,10 +871,16 @@ func main() {
 			continue
 		}
 		vfiles, vorder, _ := parseDir(fset, p.dir, p.prefix, []string{"verif"})
-		_ = vfiles
 		for _, v := range vorder {
 			if _, ok := files[v]; !ok {
 				facts.VerifFiles = append(facts.VerifFiles, v)
+			}
+		}
+		// the reverse: a file of the normal build that the harness build (-tags verif) would NOT contain
+		// means the harness exercises other code than the one shipped
+		for _, v := range order {
+			if _, ok := vfiles[v]; !ok {
+				problem("%s is part of the normal build but excluded under the verif tag: the harness would not run it", v)
 			}
 		}
 		if p.prefix == "" {
